@@ -209,10 +209,17 @@ def install():
                 raise Horizon()
             fr = [name, 0]
             m.frames.append(fr)
+            before = getattr(tape, 'pointer', 0)
             try:
                 return fn(tape, stack, cache)
             finally:
                 m.frames.pop()
+                after = getattr(tape, 'pointer', 0)
+                data = getattr(tape, 'data', None)
+                if data is not None and not (0 <= before <= after <= len(data)):
+                    # also catches pointer arithmetic that bypasses Tape.read / Tape.move_pointer
+                    m.problem('tape pointer moved backwards or past the end',
+                              f'{name}: pointer {before} -> {after}, len {len(data)}')
                 st = getattr(stack, 'deque', None)
                 if st is not None:
                     n = len(st)
@@ -289,3 +296,22 @@ def run_monitored(script, limits, cache=None, contracts=None, plugins=None, flag
     finally:
         Mon.active = None
     return mon, exc, list(stack.deque), rc
+
+
+def run_monitored_auth(scripts, limits, cache=None, horizon=200000):
+    """run_auth_scripts under the step monitor (wrappers on the op tables / run_tape / Tape.read; the VM makes
+    its own Stack, so only instruction-level observations are available). returns (mon, verdict or exception)"""
+    install()
+    mon = Mon(limits, horizon)
+    Mon.active = mon
+    try:
+        v = F.run_auth_scripts(list(scripts), dict(cache or {}), stack_max_items=limits[0], stack_max_item_size=limits[1],
+                               callstack_limit=limits[2])
+    except BaseException as e:
+        if isinstance(e, (KeyboardInterrupt, SystemExit)):
+            Mon.active = None
+            raise
+        v = e
+    finally:
+        Mon.active = None
+    return mon, v
